@@ -941,6 +941,18 @@ impl<'a> Drv<'a> {
         }
         self.rep.upstream_failed = self.ev.query_upstream_failed().into_iter().collect();
         self.rep.failed_q = self.ev.query_failed().into_iter().collect();
+        // C17: after the abort the failed report still is exactly what the driver reported failed
+        if self.rep.failed_q != self.rep.failed {
+            viol!(self, "C17", "failed-set", "after-abort", "after the abort the failed set is {:?}, the driver reported {:?} as failed", self.rep.failed_q, self.rep.failed);
+        }
+        for j in snap.jobs.iter() {
+            if self.rep.upstream_failed.contains(&j.job_id) != j.upstream_failed {
+                viol!(self, "C17", "upf-query-mismatch", "after-abort", "{} query_upstream_failed disagrees with state {} after the abort", j.job_id, j.state);
+            }
+            if self.rep.started.contains(&j.job_id) && self.rep.upstream_failed.contains(&j.job_id) {
+                viol!(self, "C07", "started-upstream-failed", j.state.clone(), "started job {} reported upstream failed after the abort", j.job_id);
+            }
+        }
         self.finished = fin;
         self.snap = Some(snap);
     }
